@@ -338,3 +338,4 @@ PLANS["C18"].proofs += _SETITEM
 _COPY = [("contracts.accessors", "ArrayCopy"), ("contracts.accessors", "QuantityCopy")]
 PLANS["C18"].proofs += _COPY
 PLANS["C11"].proofs += _COPY
+PLANS["C11"].proofs += [("contracts.registry", "RegistryFromJson"), ("contracts.registry", "RegistryInit")]
